@@ -328,3 +328,24 @@ def layout_source():
         # one source per variant: a refusal (the transformer exits when a policy is missing) must not hide the others
         out.append((k, '\n'.join(rule + (ruleq if k == 'indentedrule' else []) + v) + '\n', ['Y/' + k], {'Y/thelink': 'Y/indentedlink'} if k == 'indentedlink' else {}))
     return out
+
+def rejoin_source():
+    """-> (text, zone_names): a policy that one zone uses up to year X, that nobody uses for some years, and that another zone
+    picks up again later, with one-off rules lying entirely inside the gap. What the second zone needs as its latest prior rule
+    is then a rule no era overlaps - anything that decides "which rules are used" per policy instead of per era loses it.
+    Product: 2 leave years x 2 one-off years x 2 rejoin years, plus the same with the policy never left (control)."""
+    lines, names = [], []
+    k = 0
+    for leave in (2002, 2003):
+        for oneoff in (2004, 2005):
+            for rejoin in (2008, 2010):
+                p, q = 'RP%d' % k, 'RQ%d' % k
+                lines += ['Rule\t%s\t1990\t%d\t-\tApr\tlastSun\t2:00\t1:00\tD' % (p, leave), 'Rule\t%s\t1990\t%d\t-\tOct\tlastSun\t2:00\t0\tS' % (p, leave),
+                          'Rule\t%s\t%d\tonly\t-\tApr\tlastSun\t2:00\t1:00\tD' % (p, oneoff), 'Rule\t%s\t%d\tonly\t-\tOct\tlastSun\t2:00\t0\tS' % (p, oneoff),
+                          'Rule\t%s\t1990\tmax\t-\tMar\tlastSun\t2:00\t1:00\tD' % q, 'Rule\t%s\t1990\tmax\t-\tSep\tlastSun\t2:00\t0\tS' % q]
+                a, b, c = 'R/first%d' % k, 'R/second%d' % k, 'R/ctl%d' % k
+                lines += ['Zone\t%s\t-6:00\t%s\tC%%sT\t%d' % (a, p, leave + 1), '\t\t\t-6:00\t-\tCST',
+                          'Zone\t%s\t-5:00\t%s\tE%%sT\t%d' % (b, q, rejoin), '\t\t\t-5:00\t%s\tE%%sT' % p,
+                          'Zone\t%s\t-7:00\t%s\tM%%sT\t%d' % (c, q, rejoin), '\t\t\t-7:00\t%s\tM%%sT' % q]
+                names += [a, b, c]; k += 1
+    return '\n'.join(lines) + '\n', names
